@@ -28,7 +28,7 @@ META['explanation'] += ' ' + 'R8: variant lists - every class but the last can d
 
 META['explanation'] += ' ' + 'R2 also evaluates every factory that does not inherit the generic decoder as it is, with the real enumeration and the integers its class mentions. R11: a decoded code point reaches the attribute the composer writes at that position.'
 
-META['explanation'] += ' ' + 'R12 / R13: no module level container and no class level state is written by a decoder.'
+META['explanation'] += ' ' + 'R12 / R13: no module level container and no class level state is written by a decoder. R14: no table over range(min(E), max(E)).'
 HERE = os.path.dirname(os.path.dirname(os.path.abspath(__file__)))
 
 
@@ -53,6 +53,7 @@ def check(ctx, report):
     # the code and the member (a memo shared by two factories answers one with the other's member); rules shared with C19.R5 / R10
     from .c19 import module_level_state, stateless_parsing
     module_level_state(ctx, report, RULE='C10.R12', title='decoding a code point does not depend on code points decoded earlier: no function changes a module level container')
+    exclusive_member_ranges(ctx, report)
     stateless_parsing(ctx, report, RULE='C10.R13', allow_memo=True,
                       modules=('cryptoparser/common/base.py', 'cryptoparser/common/parse.py', 'cryptoparser/tls/ciphersuite.py', 'cryptoparser/tls/algorithm.py',
                                'cryptoparser/tls/grease.py', 'cryptoparser/tls/version.py', 'cryptoparser/dnsrec/record.py', 'cryptoparser/ssh/subprotocol.py'),
@@ -156,6 +157,29 @@ def coded_fields_kept(ctx, report, RULE='C10.R11'):
                     report.add(RULE, '%s@%s' % (c.construct, diff_key(d)), d.detail)
     report.count(RULE, n)
     report.floor(RULE, 60, 'coded fields of binary classes')
+
+
+def exclusive_member_ranges(ctx, report, RULE='C10.R14'):
+    """A decoding table filled by walking ``range(min(Enum), max(Enum))`` has no entry for the largest member - ``range`` stops
+    before its end - so the highest registered code point is refused (or falls to the unknown wrapper) although the enumeration
+    knows it.  Every ``range(a, b)`` of the package whose end is ``max(...)`` of something (and not ``max(...) + 1``) is reported;
+    so is ``range(min(...) + 1, ...)``, which drops the smallest."""
+    report.rule(RULE, 'tables over the codes of an enumeration cover both ends: no range(min(E), max(E)) that leaves out the largest member')
+    n = 0
+    for m in ctx.model.repo_modules():
+        for x in ast.walk(m.tree):
+            if isinstance(x, ast.Call) and isinstance(x.func, ast.Name) and x.func.id == 'range' and 1 <= len(x.args) <= 3:
+                n += 1
+                end = x.args[1] if len(x.args) >= 2 else x.args[0]
+                if isinstance(end, ast.Call) and isinstance(end.func, ast.Name) and end.func.id == 'max' and len(end.args) == 1 and not end.keywords:
+                    report.add(RULE, '%s@range[%s]' % (m.relpath, ast.unparse(x)[:50]),
+                               '%s stops before %s: the largest value has no entry in what is built from this range' % (ast.unparse(x)[:70], ast.unparse(end)[:40]))
+                start = x.args[0] if len(x.args) >= 2 else None
+                if isinstance(start, ast.BinOp) and isinstance(start.op, ast.Add) and isinstance(start.left, ast.Call) and \
+                        isinstance(start.left.func, ast.Name) and start.left.func.id == 'min' and len(start.left.args) == 1:
+                    report.add(RULE, '%s@range[%s]' % (m.relpath, ast.unparse(x)[:50]), '%s starts after the smallest value' % ast.unparse(x)[:70])
+    report.count(RULE, n)
+    report.floor(RULE, 5, 'range() calls of the package')
 
 
 def registry_names_exact(ctx, report, RULE='C10.R10'):
